@@ -1080,7 +1080,7 @@ class CallsMixin:
         """A pure function is a function of its arguments (and of the heap epoch if it may read the heap)."""
         reads_heap = any(isinstance(b.kind, K.Ref) or (isinstance(b.kind, K.Opt) and isinstance(b.kind.inner, K.Ref))
                          for b in bound.values())
-        epoch = self.p.heap_epoch if reads_heap else 0
+        epoch = self.p.heap_epoch if (reads_heap and c.reads is None) else 0
         arg_terms = [t for b in bound.values() for t in b.terms]
         res = V(c.returns, [
             self.p.ctx.ufunc('pure!%s!e%d!%d' % (c.name, epoch, i), *([t.sort() for t in arg_terms] + [srt]))(*arg_terms)
